@@ -114,6 +114,13 @@ REEVAL_SUFFIX = "semantics-depend-on-the-map-built-so-far"
 FAMILY_SCOPE = {"signedness-flag-carried-between-steps": "global",
                 "semantics-depend-on-the-map-built-so-far": "isa+mnemonic"}
 ARMV7_PC_SIG = "C02:armv7:<write to pc>:interworking-decided-only-when-pc-is-constant"
+# The memory model has no address width (DESIGN.md, C06): an access whose bytes straddle the top of a 16-bit
+# address space reads / writes the bytes at 2^16.. when it is made in one piece and those at 0.. when its upper
+# bytes are addressed separately (`M16(r8)` vs the sign byte `M8(r8+1)` with r8 = 0xffff).  Recognised by a
+# mechanism check — the difference disappears when the memory image of the concrete state ends where the
+# address space ends (nothing to read beyond it) — and only then; one signature per ISA.  The theorems exclude
+# these states by hypothesis (Access.noWrap).
+WRAP_SUFFIX = "access-wraps-address-space"
 
 
 def family_signature(isa_name, mnemonic, cls, suffix):
@@ -233,6 +240,7 @@ class Ctx(object):
             self.psize = max(set(sizes), key=sizes.count) if sizes else 32
         self.low = membank[self.e][0]
         self.windows = [(0, self.low)]
+        self.full_windows = None     # set while the memory image is cut at the end of the address space
         if self.psize >= 24:
             self.windows.append(((1 << self.psize) - HIGH_N, membank[self.e][1]))
         self.modes = list(range(I.nsets)) if name == "armv7" else [0]
@@ -832,6 +840,33 @@ def aliasing_assumption_violated(m, C):
     return False
 
 
+class _CutAtAddressSpace(object):
+    """the concrete states' memory image ends where the (small) address space of the ISA ends"""
+
+    def __init__(self, ctx):
+        self.ctx = ctx
+
+    def __enter__(self):
+        c = self.ctx
+        c.full_windows = c.windows
+        top = 1 << c.psize
+        c.windows = [(a, data[:max(0, top - a)]) for a, data in c.windows if a < top]
+        return self
+
+    def __exit__(self, *a):
+        self.ctx.windows, self.ctx.full_windows = self.ctx.full_windows, None
+
+
+def wraps_address_space(ctx, mode, bss, sid, setting, cls):
+    """mechanism check of the WRAP_SUFFIX family: the class-`cls` difference of this sequence from this state
+    is there with memory beyond the end of the address space and gone without it"""
+    if ctx.psize >= 24 or all(a + len(d) <= (1 << ctx.psize) for a, d in ctx.windows):
+        return False
+    with _CutAtAddressSpace(ctx):
+        r = evaluate(ctx, mode, bss, [sid], setting)[0]
+    return r.exc is None and _first(r, cls) is None
+
+
 def evaluate(ctx, mode, bss, sids, setting):
     """run both routes for one sequence under one setting from the states `sids`; returns [Res].
     Each route starts from the import-time world (ctx.restore inside ctx.decode) and then runs exactly as a
@@ -1128,6 +1163,11 @@ def _handle_class(ck, ctx, stats, mode, bss, mn, sid, setting, cls, res, allow_s
         # (the bytes keep their start value on route A)
         sig = STORE_LOST_SIG
         note = " (store not recorded in the map: lost by `state >> map`)"
+    elif rs.exc is None and wraps_address_space(ctx, mode, cur, sid, setting, cls):
+        sig = "C02:%s:%s" % (ctx.name, WRAP_SUFFIX)
+        note = (" (an access straddles the top of the %d-bit address space: the difference disappears when the state's memory "
+                "ends where the address space ends; the memory model has no address width)" % ctx.psize)
+        extra = {"culprit": cmn[-1], "wrap_check": "no difference once the memory image is cut at 2^%d" % ctx.psize}
     else:
         # (3) seen through another location: the sequence without its last instruction already differs
         prefix_clean = False
